@@ -128,6 +128,11 @@ func (h *baseHandler) Read(p []byte) (n int, err error) {
 			h.readBuf.WriteString(protocol.FieldDelimiter)
 		}
 		h.readBuf.WriteString(line.Content.String())
+		if !h.plain && !bytes.HasSuffix(line.Content.Bytes(), []byte("\n")) {
+			// The last line of a file may lack its newline. A labelled record is a
+			// line of its own, otherwise the next record is glued onto this one.
+			h.readBuf.WriteByte('\n')
+		}
 		h.readBuf.WriteByte(protocol.MessageDelimiter)
 		n = copy(p, h.readBuf.Bytes())
 		pool.RecycleBytesBuffer(line.Content)
